@@ -1,7 +1,7 @@
 #!/bin/bash
 # usage: run.sh <property-id|all> <quick|thorough> [extra charonlint flags]
 set -u
-cd "$(dirname "$0")"
+cd "$(dirname "$0")"; here=$(pwd)
 export GOFLAGS=-mod=mod GOPROXY=off GOSUMDB=off GOTOOLCHAIN=local GOWORK=off
 export PATH=/opt/veriftools/go1.26.8/bin:$PATH
 unset GOWORK
@@ -9,4 +9,4 @@ prop=${1:?property id}; tier=${2:-quick}; shift; shift || true
 if [ ! -x bin/charonlint ] || [ -n "$(find checker -name '*.go' -newer bin/charonlint -print -quit)" ]; then
   ./setup.sh >/dev/null || { echo "UNDECIDED property=$prop checker build failed"; exit 2; }
 fi
-exec bin/charonlint -prop "$prop" -tier "$tier" -repo /repo -out /verif/evidence -known /verif/known_findings.json "$@"
+exec bin/charonlint -prop "$prop" -tier "$tier" -repo /repo -out "$here/evidence" -known "$here/known_findings.json" "$@"
